@@ -20,7 +20,7 @@ ASSUMPTIONS = ['binary-shape comparisons skip pixels whose exactly computed edge
 PLAN = {'quick': {'gen': 8}, 'thorough': {'gen': 16, 'tests': 1, 'docs': 1}}
 REQUIRED_BUCKETS = ['pad:2d', 'pad:cube', 'pad:nonsquare-cube', 'pad:grow', 'pad:shrink', 'pad:mixed',
                     'pad:parity-change', 'subarray', 'window', 'boundary', 'slice_offset', 'centroid', 'rebin',
-                    'rebin:cube', 'mesh', 'shape:circle', 'shape:hexagon', 'shape:rectangle', 'shape:binary',
+                    'rebin:cube', 'mesh', 'shape:circle', 'shape:hexagon', 'shape:rectangle', 'shape:spider', 'shape:binary',
                     'shape:antialias', 'hexseg', 'hexseg:gap0', 'hexseg:drop']
 REQUIRED_ANCHORS = ['probe:pad', 'anchor:mesh', 'anchor:hex_to_rc', 'anchor:slice_offset', 'anchor:boundary_slice']
 REQUIRED_ORACLES = ['pad=index', 'pad-crop=id', 'subarray=index', 'window=index', 'boundary=set',
@@ -426,6 +426,25 @@ def workload(ctx, lentil):
             valid &= sshift & (_margin(kind, s, p, (a, b)) > 1e-9)
         ctx.check(bool(np.all(np.abs(m1 - ref)[valid] <= tol)), 'shape:translate', f'shape|translate|{kind}',
                   'shape does not translate exactly under an integer shift', dict(desc, shift=[a, b]))
+
+    # ---- spider: range and binarity (its bar has a finite, shape-dependent length, so exact translation is not expected) ----
+    for i in range(n // 4):
+        s = _rs(rng, 5, 28)
+        antialias = bool(rng.random() < 0.5)
+        p = {'width': float(rng.uniform(0.5, 5)), 'angle': float(rng.uniform(-180, 180)) if rng.random() < 0.7 else float(rng.choice([0, 90, 45])),
+             'shift': (float(rng.uniform(-3, 3)), float(rng.uniform(-3, 3))) if rng.random() < 0.5 else (0, 0)}
+        desc = {'op': 'shape', 'kind': 'spider', 'shape': list(s), 'p': p, 'antialias': antialias}
+        ctx.case(desc, ['shape:spider', 'shape:antialias' if antialias else 'shape:binary'])
+        try:
+            m0 = lentil.spider(s, p['width'], angle=p['angle'], shift=p['shift'], antialias=antialias)
+        except Exception as e:
+            ctx.check(False, 'shape:range', f'shape|spider|raises={type(e).__name__}', str(e), desc)
+            continue
+        ctx.check(m0.shape == tuple(s) and float(m0.min()) >= 0.0 and float(m0.max()) <= 1.0, 'shape:range', 'shape|range|spider',
+                  'drawn shape has values outside [0, 1]', desc)
+        if not antialias:
+            ctx.check(bool(np.all((m0 == 0) | (m0 == 1))), 'shape:binary', 'shape|binary|spider',
+                      'shape drawn without antialiasing is not binary', desc)
 
     # ---- hex_segments ---------------------------------------------------------------------
     nh = ctx.count(24, 120)
